@@ -8,13 +8,25 @@ import io, sys
 # ---------------------------------------------------------------------------------------------- call counting
 
 
-def count_calls(fn):
-    """number of interpreter-level function calls ('call' and 'c_call' profile events) made while fn() runs"""
-    n = [0]
+class WorkBudget(BaseException):
+    """raised by the counting hook when a measurement has used its budget of calls (see _counted)"""
 
-    def prof(frame, event, arg):
-        if event == 'call' or event == 'c_call':
-            n[0] += 1
+
+def count_calls(fn, budget=None):
+    """number of interpreter-level function calls ('call' and 'c_call' profile events) made while fn() runs; with a
+    budget the run is abandoned (WorkBudget) as soon as more calls than that have been counted"""
+    n = [0]
+    if budget is None:
+        def prof(frame, event, arg):
+            if event == 'call' or event == 'c_call':
+                n[0] += 1
+    else:
+        def prof(frame, event, arg):
+            if event == 'call' or event == 'c_call':
+                n[0] += 1
+                if n[0] > budget:
+                    sys.setprofile(None)
+                    raise WorkBudget()
     sys.setprofile(prof)
     try:
         fn()
@@ -593,11 +605,23 @@ def sizes_for(fam, side, unit_calls, target, min_n, doublings, nested_n, jitter=
 
 
 # ---------------------------------------------------------------------------------------------- measurement tasks
+BUDGET = 3        # a member may use at most BUDGET times the calls of the member of half its size ...
+
+
 def _counted(w, fn, err):
     """append the call count of fn() to w; a family member that the tree under test rejects (any exception) ends the
-    series: what completed is still judged, the failure is reported as a note (functional behaviour is not C20's subject)"""
+    series: what completed is still judged, the failure is reported as a note (functional behaviour is not C20's subject).
+    ... a member that needs more is abandoned and enters the series with that LOWER BOUND of its work (the judgement by
+    Trace_Work.tla is unchanged: 3 x is not "at most doubles"); this only keeps a badly superlinear tree from taking hours"""
     try:
-        w.append(count_calls(fn))
+        if w:
+            try:
+                w.append(count_calls(fn, BUDGET * w[-1]))
+            except WorkBudget:
+                w.append(BUDGET * w[-1])
+                return False
+        else:
+            w.append(count_calls(fn))
         return True
     except Exception as x:
         err.append('%s: %s' % (type(x).__name__, str(x)[:160].replace('\n', ' ')))
@@ -625,6 +649,11 @@ def _measure_calls(task):
         t0 = gen(PROBE_N)
         unit = count_calls(lambda: fn(t0)) // PROBE_N
         sizes = sizes_for(fam, side, unit, target, min_n, doublings, nested_n, jitter)
+        # a family that grows inside ONE line is in its final regime only beyond the 1024-character simple-key limit (below
+        # it a key candidate stays alive and every repetition is a little cheaper): the first member gets >= 2 * 1024
+        longest = max(len(x) for x in gen(sizes[0]).split('\n'))
+        if fam not in NESTED and 300 < longest < MIN_CYCLE_CHARS and max(len(x) for x in gen(sizes[0] + 8).split('\n')) > longest:
+            sizes = [k * -(-MIN_CYCLE_CHARS // longest) for k in sizes]
         for n in sizes:
             text = gen(n)
             if not _counted(w, lambda: fn(text), err):
@@ -785,3 +814,346 @@ def measure_prims(task):
     # simple-key table (1024 characters) and of the first reader block it is not yet linear, so it is not judged
     return {'kind': 'prim', 'family': fam, 'api': api, 'n': n0, 'q': q, 'k': k, 'b': b, 'e': e, 'depth': depth, 'flow': flow,
             'look': look, 'block': block if block > 0 else 0, 'size': size, 'units': units, 'error': error}
+
+
+# ---------------------------------------------------------------------------------------------- cycle families (spec -> code)
+# spec/WorkPump.tla exports the transition graph of Work.tla (finite although the input is unbounded).  A family that
+# "grows by repetition" is a cycle of that graph: input u v^n w.  One iteration of a scanner loop is one action, the
+# character class that selects its branch is the symbol the environment chooses when the loop first looks at it; so the
+# family list is: for every Choose-edge signature (loop pc, chosen class, look-ahead already chosen, run started, flow
+# context, block-scalar indentation known) that lies on a cycle, the SHORTEST cycle through such an edge, with the shortest
+# prefix from Init and the shortest suffix to the end of the stream.  Nothing here decides anything: the counts measured
+# on the concretised texts are judged by Trace_Work.tla like every other family.
+import collections as _c
+import re as _re
+
+_EDGE = _re.compile(r'^"<<\\"E\\", <<(-?\d+), (-?\d+)>>, <<(-?\d+), (-?\d+)>>, \\"(\w+)\\", \\"(\w+)\\", \\"([^\\]*)\\", '
+                    r'<<(.*?)>>, (\d+), (\d+), (\d+), (\d+), (TRUE|FALSE)>>"$', _re.M)
+_INIT = _re.compile(r'^"<<\\"I\\", <<(-?\d+), (-?\d+)>>>>"$', _re.M)
+_RUN_RL = ('plain', 'quoted', 'anchor', 'bline', 'dirname')
+_RUN_SL = ('pspaces', 'qspaces')
+SYMBOL_NAME = {'w': 'word', 's': 'space', 'n': 'break', 'h': 'hash', ':': 'colon', '-': 'dash', '[': 'open', ']': 'close',
+               ',': 'comma', 'q': 'quote', 'a': 'anchor', 'r': 'alias', 'd': 'docstart', 'b': 'bar', 'i': 'digit', 'c': 'plus', '0': 'eof',
+               'Q': 'dquote', 'e': 'backslash', 'x': 'hexesc', 't': 'bang', 'p': 'percent', 'k': 'qmark', 'z': 'docend'}
+
+
+def parse_graph(out):
+    """TLC output of WorkPump -> (init, succ, done, n, actions): succ[u] = [(v, chosen symbol or '', signature or None)]"""
+    ids = {}
+
+    def nid(a, b):
+        k = (a, b)
+        i = ids.get(k)
+        if i is None:
+            i = ids[k] = len(ids)
+        return i
+    m = _INIT.search(out)
+    if not m:
+        raise SystemExit('machinery failure: no initial state line in the WorkPump output')
+    init = nid(m.group(1), m.group(2))
+    succ, done, seen, actions = _c.defaultdict(list), set(), set(), _c.Counter()
+    for m in _EDGE.finditer(out):
+        u, v, ch, pc = nid(m.group(1), m.group(2)), nid(m.group(3), m.group(4)), m.group(7), m.group(5)
+        if (u, v, ch) in seen:                       # the same configuration with another fuel level
+            continue
+        seen.add((u, v, ch))
+        sig = None
+        if ch:
+            la = _re.findall(r'\\"([^\\]*)\\"', m.group(8))
+            run = int(m.group(9)) if pc in _RUN_RL else int(m.group(10)) if pc in _RUN_SL else 0
+            sig = (pc, ch, ''.join(la[run:]), min(run, 1), min(int(m.group(11)), 1),
+                   min(int(m.group(12)), 1) if pc.startswith('b') else 0)
+        else:
+            actions[pc] += 1
+        succ[u].append((v, ch, sig))
+        if m.group(6) == 'done':
+            done.add(v)
+    return init, succ, done, len(ids), actions
+
+
+def _bfs(start, succ, target=None, limit=None):
+    dist, par, q = {start: 0}, {}, _c.deque([start])
+    while q:
+        u = q.popleft()
+        if u == target:
+            break
+        if limit is not None and dist[u] >= limit:
+            continue
+        for v, ch, _ in succ.get(u, ()):
+            if v not in dist:
+                dist[v] = dist[u] + 1
+                par[v] = (u, ch)
+                q.append(v)
+    return dist, par
+
+
+def _path(par, start, end):
+    out, x = [], end
+    while x != start:
+        x, ch = par[x]
+        out.append(ch)
+    return ''.join(reversed(out))
+
+
+def _components(n, succ):
+    """strongly connected components (iterative Tarjan): an edge lies on a cycle iff both ends are in one component"""
+    index, low, on, comp = [None] * n, [0] * n, [False] * n, [-1] * n
+    st, idx, nc = [], 0, 0
+    for s0 in range(n):
+        if index[s0] is not None:
+            continue
+        work = [(s0, iter(succ.get(s0, ())))]
+        index[s0] = low[s0] = idx
+        idx += 1
+        st.append(s0)
+        on[s0] = True
+        while work:
+            u, it = work[-1]
+            adv = False
+            for v, _, _ in it:
+                if index[v] is None:
+                    index[v] = low[v] = idx
+                    idx += 1
+                    st.append(v)
+                    on[v] = True
+                    work.append((v, iter(succ.get(v, ()))))
+                    adv = True
+                    break
+                elif on[v]:
+                    low[u] = min(low[u], index[v])
+            if adv:
+                continue
+            work.pop()
+            if work:
+                low[work[-1][0]] = min(low[work[-1][0]], low[u])
+            if low[u] == index[u]:
+                while True:
+                    w = st.pop()
+                    on[w] = False
+                    comp[w] = nc
+                    if w == u:
+                        break
+                nc += 1
+    return comp
+
+
+def derive_cycles(out, per_level=400):
+    """-> (families, signatures, nodes, actions): families[sig] = (u, v, w) as symbol strings"""
+    init, succ, done, n, actions = parse_graph(out)
+    comp = _components(n, succ)
+    dist0, par0 = _bfs(init, succ)
+    pred = _c.defaultdict(list)
+    for u, l in succ.items():
+        for v, ch, _ in l:
+            pred[v].append((u, ch))
+    distd, nxt, q = {d: 0 for d in done}, {}, _c.deque(sorted(done))
+    while q:
+        v = q.popleft()
+        for u, ch in pred.get(v, ()):
+            if u not in distd:
+                distd[u] = distd[v] + 1
+                nxt[u] = (v, ch)
+                q.append(u)
+    bysig, allsigs = _c.defaultdict(list), set()
+    for u, l in succ.items():
+        for v, ch, sig in l:
+            if sig:
+                allsigs.add(sig)
+                if comp[u] == comp[v] and u in dist0 and u in distd:
+                    bysig[sig].append((dist0[u] + distd[u], u, v, ch))
+    fams = {}
+    for sig, cands in sorted(bysig.items()):
+        cands.sort()
+        best = None
+        for limit in (0, 1, 2, 3, 5, 8, 12, 20, 40, 80):          # iterative deepening over all candidate edges
+            for d0, u, v, ch in cands[:per_level if limit > 3 else None]:
+                if v == u:
+                    cyc = ch
+                else:
+                    if limit == 0:
+                        continue
+                    d, par = _bfs(v, succ, target=u, limit=limit)
+                    if u not in d:
+                        continue
+                    cyc = ch + _path(par, v, u)
+                cand = (len(cyc), d0, u, cyc)
+                if best is None or cand < best:
+                    best = cand
+            if best:
+                break
+        if best:
+            u, cyc = best[2], best[3]
+            suf, x = [], u
+            while x not in done:
+                x, c2 = nxt[x]
+                suf.append(c2)
+            fams[sig] = (_path(par0, init, u), cyc, ''.join(suf))
+    return fams, allsigs, n, actions
+
+
+MIN_CYCLE_CHARS = 2 * 1024
+_CONCRETE = {'w': 'a', 's': ' ', 'n': '\n', 'h': '#', ':': ':', '-': '-', '[': '[', ']': ']', ',': ',', 'q': "'", 'a': '&',
+             'r': '*', 'b': '|', 'i': '1', 'c': '+', '0': '', 'Q': '"', 'e': '\\', 'x': 'x', 'k': '?', 't': '!', 'p': '%'}
+_ALTERNATE = dict(_CONCRETE, **{'w': 'b', 'b': '>', '[': '{', ']': '}', 'i': '2', '-': '-', 'n': '\r\n'})
+
+
+def concretise(symbols, following='', table=_CONCRETE, at_line_start=True):
+    """symbol string of Work.tla -> text; 'd' / 'z' are '---' / '...' followed by a blank (the model's document markers at
+    column 0); the two word characters after a '%' that is not at the start of a line are the hex digits of a URI escape"""
+    out = []
+    s = symbols + following[:1]
+    hexd = 0
+    for i, c in enumerate(symbols):
+        start = at_line_start if i == 0 else symbols[i - 1] == 'n'
+        if c == 'w' and hexd:
+            out.append('41'[2 - hexd])
+            hexd -= 1
+            continue
+        hexd = 0
+        if c == 'p' and not start:
+            hexd = 2
+        if c == 'd':
+            out.append('---' if s[i + 1:i + 2] in ('s', 'n', '0', '') else '--- ')
+        elif c == 'z':
+            out.append('...' if s[i + 1:i + 2] in ('s', 'n', '0', '') else '... ')
+        else:
+            out.append(table[c])
+    return ''.join(out)
+
+
+def cycle_name(cfg, sig):
+    pc, ch, tail, run, flow, bi = sig
+    return 'cycle/%s/%s/%s%s%s%s%s' % (cfg, pc, SYMBOL_NAME.get(ch, ch), '_after_' + '_'.join(SYMBOL_NAME.get(x, x) for x in tail) if tail else '',
+                                     '_in_run' if run else '', '_flow' if flow else '', '_indent_known' if bi else '')
+
+
+def cycle_parts(fam, table=_CONCRETE):
+    """(u, v, w) as texts; v is concretised in the context it has inside the repetition"""
+    u, v, w = fam
+    ends = lambda x, d: (x[-1] == 'n') if x else d
+    tu = concretise(u, v, table, True)
+    # a '%' escape never straddles the cycle boundary in a shortest cycle that returns to the same configuration
+    tv = concretise(v, v, table, ends(v, ends(u, True)))
+    tw = concretise(w, '', table, ends(v, ends(u, True)))
+    return tu, tv, tw
+
+
+def cycle_text(fam, n, table=_CONCRETE):
+    tu, tv, tw = cycle_parts(fam, table)
+    return tu + tv * n + tw
+
+
+def measure_cycle(task):
+    """task = (name, (u, v, w), api, target, min_n, doublings, jitter, alternate) -> ratio record for Trace_Work"""
+    from .common import use_repo
+    yaml = use_repo()
+    name, fam, api, target, min_n, doublings, jitter, alternate = task
+    table = _ALTERNATE if alternate else _CONCRETE
+    fn = load_apis(yaml)[api]
+    w, err, sizes = [], [], []
+    try:
+        fn('a: b\n')
+        t0 = cycle_text(fam, PROBE_N, table)
+        unit = max(1, count_calls(lambda: fn(t0)) // PROBE_N)
+        # the cycle is one of the SATURATED configurations (key age > MaxKey, column >= MaxCol): the real scanner is on it only
+        # after 1024 characters; below that a repetition is cheaper (the key candidate is still alive), so the first member
+        # has to be several times that long
+        # (only where a key candidate can stay alive: a cycle without a line break)
+        vtext = cycle_parts(fam, table)[1]
+        n = max(min_n, target // unit, 0 if '\n' in vtext else -(-MIN_CYCLE_CHARS * max(1, min_n // 200) // max(1, len(vtext))))
+        n += (n * jitter) // 100
+        sizes = [n * 2 ** i for i in range(doublings + 1)]
+        for k in sizes:
+            text = cycle_text(fam, k, table)
+            if not _counted(w, lambda: fn(text), err):
+                break
+    except Exception as x:
+        err.append('%s: %s' % (type(x).__name__, str(x)[:160].replace('\n', ' ')))
+    r = {'kind': 'ratio', 'family': name, 'api': api + ('_alt' if alternate else ''), 'n': sizes[0] if sizes else 0, 'sizes': sizes, 'w': w,
+         'uvw': list(cycle_parts(fam, table))}
+    if err:
+        r['error'] = err[0]
+    return r
+
+
+def derive_from_file(path):
+    """(worker process) TLC output file of a WorkPump run -> (families, number of signatures, nodes, actions)"""
+    fams, sigs, n, actions = derive_cycles(open(path).read())
+    return {sig: f for sig, f in fams.items()}, sorted(sigs), n, dict(actions)
+
+
+def select_cycles(per_cfg):
+    """per_cfg: {cfg: families} -> [(name, (u, v, w), sig)]: one family per (loop, concrete cycle text, flow context),
+    the one with the shortest prefix; deterministic"""
+    best = {}
+    for cfg in sorted(per_cfg):
+        for sig, f in sorted(per_cfg[cfg].items()):
+            key = (sig[0], cycle_parts(f)[1], sig[4])
+            cand = (len(f[0]) + len(f[2]), cycle_name(cfg, sig), tuple(f), sig)
+            if key not in best or cand < best[key]:
+                best[key] = cand
+    return [(c[1], c[2], c[3]) for k, c in sorted(best.items())]
+
+
+# ---------------------------------------------------------------------------------------------- writer cycle families (dump side)
+# spec/WorkWrite.tla: one action per iteration of the scalar writers of emitter.py; the cycles of its graph, concretised as
+# str values, are dumped in the style of the cycle (the emitter may still choose another one: that is its decision).
+WRITE_STYLE = {'P': None, 'S': "'", 'D': '"', 'F': '>', 'L': '|'}
+_WCONCRETE = {'w': 'a', 's': ' ', 'n': '\n', 'q': "'", 'e': '\x07', '0': ''}
+
+
+def wcycle_name(cfg, sig):
+    return 'cycle/%s/%s/%s%s' % (cfg, sig[0], SYMBOL_NAME.get(sig[1], sig[1]), '_beyond_width' if sig[4] else '')
+
+
+def wcycle_value(fam, n):
+    u, v, w = fam
+    return ''.join(_WCONCRETE[c] for c in u[1:]) + ''.join(_WCONCRETE[c] for c in v) * n + ''.join(_WCONCRETE[c] for c in w)
+
+
+def select_wcycles(fams, cfg='writers'):
+    best = {}
+    for sig, f in sorted(fams.items()):
+        if not f[0]:
+            continue
+        key = (f[0][0], ''.join(_WCONCRETE[c] for c in f[1]), sig[0], sig[4])
+        cand = (len(f[0]) + len(f[2]), wcycle_name(cfg, sig), tuple(f), sig)
+        if key not in best or cand < best[key]:
+            best[key] = cand
+    return [(c[1], c[2], c[3]) for k, c in sorted(best.items())]
+
+
+def measure_wcycle(task):
+    """task = (name, (u, v, w), api, target, min_n, doublings, jitter) -> ratio record for Trace_Work"""
+    from .common import use_repo
+    yaml = use_repo()
+    name, fam, api, target, min_n, doublings, jitter = task
+    style = WRITE_STYLE[fam[0][0]]
+    if api == 'dump_style':
+        fn = lambda v: yaml.dump(v, Dumper=yaml.SafeDumper, default_style=style)
+    elif api == 'dump_style_stream':
+        fn = lambda v: yaml.dump(v, io.StringIO(), Dumper=yaml.SafeDumper, default_style=style, allow_unicode=True, width=40)
+    else:                                       # the emitter alone
+        def fn(v):
+            evs = [yaml.StreamStartEvent(), yaml.DocumentStartEvent(), yaml.ScalarEvent(None, None, (style is None, style is not None), v, style=style),
+                   yaml.DocumentEndEvent(), yaml.StreamEndEvent()]
+            yaml.emit(evs, Dumper=yaml.SafeDumper)
+    w, err, sizes = [], [], []
+    try:
+        fn('a b')
+        v0 = wcycle_value(fam, PROBE_N)
+        unit = max(1, count_calls(lambda: fn(v0)) // PROBE_N)
+        n = max(min_n, target // unit)
+        n += (n * jitter) // 100
+        sizes = [n * 2 ** i for i in range(doublings + 1)]
+        for k in sizes:
+            v = wcycle_value(fam, k)
+            if not _counted(w, lambda: fn(v), err):
+                break
+    except Exception as x:
+        err.append('%s: %s' % (type(x).__name__, str(x)[:160].replace('\n', ' ')))
+    r = {'kind': 'ratio', 'family': name, 'api': api, 'n': sizes[0] if sizes else 0, 'sizes': sizes, 'w': w,
+         'uvw': [fam[0][0] + ':' + wcycle_value((fam[0], '', ''), 0), wcycle_value(('X', fam[1], ''), 1), wcycle_value(('X', '', fam[2]), 0)]}
+    if err:
+        r['error'] = err[0]
+    return r
